@@ -233,8 +233,34 @@ def emit_task_shape(repo: Path, status: dict, flags: dict) -> None:
         flags["gen_task_methods_shape"] = False; status["gen_task_methods_shape"] = f"ERROR: {e}"
 
 
+def class_text(tree, name):
+    for c in tree.body:
+        if isinstance(c, ast.ClassDef) and c.name == name:
+            return [" ".join(ast.unparse(s_).split()) for s_ in c.body if not (isinstance(s_, ast.Expr) and isinstance(s_.value, ast.Constant))]
+    return None
+
+
+EXPECT_CONFIG = {
+    "EarlyStopping": ['patience: int | None = 1', 'min_delta: float | None = 0.0001', '@field_validator(\'patience\') def validate_patience(cls, v): if v is None: return cls.model_fields[\'patience\'].default if v < 1: raise ValueError(f\'"patience" must be greater than or equal to one. Got {v}\') return v', "@field_validator('min_delta') def validate_min_delta(cls, v): return cls.model_fields['min_delta'].default if v is None else v"],
+    "BaseOptimizationConfig": ['population_size: int', 'fitness_error: float | None = 0.1', 'max_cycles: int', 'early_stopping: EarlyStopping | None = None'],
+}
+
+
+def emit_config_shape(repo: Path, status: dict, flags: dict) -> None:
+    """the stop options reach __should_stop__ exactly as configured: EarlyStopping / BaseOptimizationConfig have exactly these fields and validators (the only rewriting is
+    None -> the field's default; nothing touches a number, e.g. no "default filling" `or` that would turn min_delta = 0.0 into 1e-4)"""
+    try:
+        tree = ast.parse((repo / "pyvolutionary" / "models.py").read_text())
+        changed = [k for k, want in EXPECT_CONFIG.items() if class_text(tree, k) != want]
+        flags["gen_stop_config_shape"] = not changed
+        status["gen_stop_config_shape"] = "regenerated" if not changed else "UNSUPPORTED: changed: " + ", ".join(changed)
+    except Exception as e:
+        flags["gen_stop_config_shape"] = False; status["gen_stop_config_shape"] = f"ERROR: {e}"
+
+
 def emit(repo: Path, status: dict) -> None:
     flags = {}
+    emit_config_shape(repo, status, flags)
     emit_task_shape(repo, status, flags)
     emit_hash_order(repo, status, flags)
     emit_bounds_fresh(repo, status, flags)
